@@ -656,7 +656,9 @@ fn compile_single_spend_redeemer(
     let index = sorted_inputs
         .iter()
         .position(|x| utxo_ref_matches(input_id, x))
-        .unwrap();
+        .ok_or(Error::ConsistencyError(
+            "redeemer for an input missing from the body".to_string(),
+        ))?;
 
     let redeemer = primitives::Redeemer {
         tag: primitives::RedeemerTag::Spend,
@@ -674,19 +676,25 @@ fn compile_spend_redeemers(
 ) -> Result<Vec<primitives::Redeemer>, Error> {
     let mut compiled_inputs = compiled_body.inputs.iter().collect::<Vec<_>>();
     compiled_inputs.sort_by_key(|x| (x.transaction_id, x.index));
+    // redeemer pointers index the input *set*: a repeated input counts once
+    compiled_inputs.dedup();
 
     let mut redeemers = Vec::new();
 
     for input in tx.inputs.iter() {
-        let utxo = coercion::expr_into_utxo_refs(&input.utxos)?;
-        let utxo = utxo
-            .first()
-            .ok_or(Error::MissingExpression("missing utxo".to_string()))?;
+        let utxos = coercion::expr_into_utxo_refs(&input.utxos)?;
+
+        if utxos.is_empty() {
+            return Err(Error::MissingExpression("missing utxo".to_string()));
+        }
 
         if let Some(redeemer) = input.redeemer.as_option() {
-            let redeemer =
-                compile_single_spend_redeemer(utxo, redeemer, compiled_inputs.as_slice())?;
-            redeemers.push(redeemer);
+            // every UTxO of a multi-UTxO script input needs its own redeemer
+            for utxo in utxos.iter() {
+                let redeemer =
+                    compile_single_spend_redeemer(utxo, redeemer, compiled_inputs.as_slice())?;
+                redeemers.push(redeemer);
+            }
         }
     }
 
@@ -719,28 +727,40 @@ pub fn mint_redeemer_index(
 fn compile_single_mint_redeemer(
     mint: &tir::Mint,
     compiled_body: &primitives::TransactionBody,
-) -> Result<Option<primitives::Redeemer>, Error> {
+) -> Result<Vec<primitives::Redeemer>, Error> {
     let Some(red) = mint.redeemer.as_option() else {
-        return Ok(None);
+        return Ok(vec![]);
     };
 
     let assets: Vec<tir::AssetExpr> = coercion::expr_into_assets(&mint.amount)?;
-    // TODO: This only works with the first redeemer.
-    // Are we allowed to include more than one?
-    let asset = assets
-        .first()
-        .ok_or(Error::MissingExpression("missing asset".to_string()))?;
-    let policy = coercion::expr_into_bytes(&asset.policy)?;
-    let policy = primitives::Hash::from(policy.as_slice());
 
-    let out = primitives::Redeemer {
-        tag: primitives::RedeemerTag::Mint,
-        index: mint_redeemer_index(compiled_body, policy)?,
-        ex_units: EXECUTION_UNITS,
-        data: red.try_as_data()?,
-    };
+    if assets.is_empty() {
+        return Err(Error::MissingExpression("missing asset".to_string()));
+    }
 
-    Ok(Some(out))
+    // the redeemer guards every policy the block mints or burns
+    let mut policies = Vec::new();
+
+    for asset in assets.iter() {
+        let policy = coercion::expr_into_bytes(&asset.policy)?;
+        let policy = primitives::Hash::from(policy.as_slice());
+
+        if !policies.contains(&policy) {
+            policies.push(policy);
+        }
+    }
+
+    policies
+        .into_iter()
+        .map(|policy| {
+            Ok(primitives::Redeemer {
+                tag: primitives::RedeemerTag::Mint,
+                index: mint_redeemer_index(compiled_body, policy)?,
+                ex_units: EXECUTION_UNITS,
+                data: red.try_as_data()?,
+            })
+        })
+        .collect()
 }
 
 fn compile_mint_redeemers(
@@ -751,10 +771,9 @@ fn compile_mint_redeemers(
         .mints
         .iter()
         .map(|mint| compile_single_mint_redeemer(mint, compiled_body))
-        .filter_map(|x| x.transpose())
         .collect::<Result<Vec<_>, _>>()?;
 
-    Ok(redeemers)
+    Ok(redeemers.into_iter().flatten().collect())
 }
 
 fn compile_burn_redeemers(
@@ -765,10 +784,9 @@ fn compile_burn_redeemers(
         .burns
         .iter()
         .map(|mint| compile_single_mint_redeemer(mint, compiled_body))
-        .filter_map(|x| x.transpose())
         .collect::<Result<Vec<_>, _>>()?;
 
-    Ok(redeemers)
+    Ok(redeemers.into_iter().flatten().collect())
 }
 
 fn withdrawal_redeemer_index(
@@ -806,10 +824,9 @@ fn compile_single_withdrawal_redeemer(
     compiled_body: &primitives::TransactionBody,
     network: Network,
 ) -> Result<Option<primitives::Redeemer>, Error> {
-    let redeemer = adhoc
-        .data
-        .get("redeemer")
-        .ok_or(Error::MissingExpression("missing redeemer".to_string()))?;
+    let Some(redeemer) = adhoc.data.get("redeemer") else {
+        return Ok(None);
+    };
 
     match redeemer {
         tir::Expression::None => Ok(None),
@@ -830,7 +847,7 @@ fn compile_withdrawal_redeemers(
     let redeemers = tx
         .adhoc
         .iter()
-        .filter(|x| x.name.as_str() == "withdraw")
+        .filter(|x| x.name.as_str() == "withdrawal")
         .map(|adhoc| compile_single_withdrawal_redeemer(adhoc, compiled_body, network))
         .filter_map(|x| x.transpose())
         .collect::<Result<Vec<_>, _>>()?;
@@ -868,6 +885,15 @@ fn compile_redeemers(
             ex_units: redeemer.ex_units,
             data: redeemer.data,
         };
+
+        if let Some(previous) = map.get(&key) {
+            if *previous != value {
+                return Err(Error::ConsistencyError(format!(
+                    "conflicting redeemers for {:?} #{}",
+                    key.tag, key.index
+                )));
+            }
+        }
 
         map.insert(key, value);
     }
